@@ -346,6 +346,6 @@ def run(ctx):
     ctx.stats.per_kind['C13/compositions'] = {'evaluations': tot, 'nontrivial': totnt}
     ctx.extra['exhaustive_scope'] = f'every composition of {6 * len(res)} row sequences of 2-9 rows: {tot} (sequence, composition) pairs'
     drive(ctx, [
-        Clause('C13/functions', function_case, oracle_functions, quick=500, thorough=20000, quick_shards=8),
-        Clause('C13/pipeline', pipeline_case, oracle_pipeline, quick=64, thorough=800, quick_shards=16),
+        Clause('C13/functions', function_case, oracle_functions, quick=500, thorough=100000, quick_shards=8),
+        Clause('C13/pipeline', pipeline_case, oracle_pipeline, quick=64, thorough=4000, quick_shards=16),
     ])
